@@ -112,6 +112,11 @@ def execReload (props : JVal) : M (R ExecRes) := do
     let t ← syncCoroutine "arbiter_reload" (.arbReload g s) []
     pure (t.map fun tid => .future tid "")
 
+/-- body of one synchronized `set_opt` call (`lenient`: the hooks.* keys never fail in the model) -/
+def setOptBody (u : Nat) (key : String) (val : JVal) (lenient : Bool) : M (R Unit) := do
+  let ok ← setOpt u key val
+  pure (if ok || lenient then .ok () else .error (.other "ValueError"))
+
 def execSet (props : JVal) : M (R ExecRes) := do
   let r ← getWatcherCmd ((props.get? "name").getD .null)
   match r with
@@ -130,13 +135,11 @@ def execSet (props : JVal) : M (R ExecRes) := do
           | .obj hs =>
             for h in hs do
               if err.isNone then
-                let r ← syncPlain "watcher_set_opt" (do let _ ← setOpt u ("hooks." ++ h.1) h.2; pure (.ok ()))
+                let r ← syncPlain "watcher_set_opt" (setOptBody u ("hooks." ++ h.1) h.2 true)
                 match r with | .error e => err := some e | .ok _ => pure ()
           | _ => pure ()
         else
-          let r ← syncPlain "watcher_set_opt" (do
-            let ok ← setOpt u key val
-            pure (if ok then .ok () else .error (.other "ValueError")))
+          let r ← syncPlain "watcher_set_opt" (setOptBody u key val false)
           match r with
           | .error e => err := some e
           | .ok _ => if setOptAction key = 1 then action := 1
@@ -279,30 +282,44 @@ def applyAddOptions (w : Watcher) : List (String × JVal) → Option Watcher
     | some w' => applyAddOptions w' rest
     | none => none
 
-/-- `add_watcher`: the new object, the list entry and the dict entry -/
-def registerWatcher (w : Watcher) (key : String) : M Unit :=
-  modS fun s => { s with ws := s.ws ++ [w],
-                         a := { s.a with watchers := s.a.watchers ++ [w.uid], names := s.a.names ++ [(key, w.uid)] } }
+/-- `add_watcher` for an already constructed watcher: AlreadyExist unless the lower-cased name
+    is free; then a new object with a fresh identity enters the heap, the list and the dict -/
+def registerChecked (w : Watcher) : M (Option Nat) := fun s =>
+  if (s.a.names.lookup (pyLower w.name)).isSome then (none, s)
+  else if w.singleton && !(w.np = 0 || w.np = 1) then (none, s)      -- the constructor raises
+  else
+  let uid := s.nextId
+  (some uid, { s with nextId := s.nextId + 1, ws := s.ws ++ [{ w with uid := uid }],
+                      a := { s.a with watchers := s.a.watchers ++ [uid],
+                                      names := s.a.names ++ [(pyLower w.name, uid)] } })
 
-def execAdd (props : JVal) : M (R ExecRes) := do
+/-- `Watcher.__init__`: max(0, int(numprocesses)) -/
+def clampNp (w : Watcher) : Watcher := { w with np := if w.np < 0 then 0 else w.np }
+
+def registerNew (w : Watcher) : M (Option Nat) := registerChecked (clampNp w)
+
+/-- the body of `Arbiter.add_watcher` (inside `synchronized`) -/
+def addCore (props : JVal) : M (R Nat) := do
   let opts := match props.get? "options" with | some (.obj kvs) => kvs | _ => []
-  let r ← syncPlain "arbiter_add_watcher" (do
-    match props.get? "name" with
-    | some (.str name) =>
-      let a ← getA
-      if (a.names.lookup (pyLower name)).isSome then pure (.error (.other "AlreadyExist"))
-      else if name.isEmpty then pure (.error (.other "ValueError"))
-      else
-        match applyAddOptions { name := name, graceful := 30000 } opts with
-        | none => pure (.error (.other "ValueError"))
-        | some w =>
-          if w.singleton && !(w.np = 0 || w.np = 1) then pure (.error (.other "ValueError")) else
-          let uid ← freshId
-          let w := { w with uid := uid }
-          registerWatcher w (pyLower name)
+  match props.get? "name" with
+  | some (.str name) =>
+    if name.isEmpty then
+      -- AlreadyExist is checked first, but every failure here is the same error class
+      pure (.error (.other "ValueError"))
+    else
+      match applyAddOptions { name := name, graceful := 30000 } opts with
+      | none => pure (.error (.other "ValueError"))
+      | some w =>
+        let r ← registerNew w
+        match r with
+        | none => pure (.error (.other "AlreadyExist"))     -- or the constructor's ValueError: same error class
+        | some uid =>
           notify uid "add" none
           pure (.ok uid)
-    | _ => pure (.error (.other "AttributeError")))
+  | _ => pure (.error (.other "AttributeError"))
+
+def execAdd (props : JVal) : M (R ExecRes) := do
+  let r ← syncPlain "arbiter_add_watcher" (addCore props)
   match r with
   | .error e => pure (.error e)
   | .ok uid =>
@@ -470,16 +487,21 @@ def runReady1 (rec : Rec) : Ready → M Unit
   | .closeCtl => stopController
   | .callback _ => sigQuit
 
+/-- the loop takes the first ready callback and runs it -/
+def settleStep (r : Ready) : M Unit := do
+  dequeue
+  runReady1 (exec 100000) r
+
 /-- run the event loop until its ready queue is empty (`settle`) -/
 def settle : Nat → M Unit
   | 0 => emit .outOfFuel
-  | fuel + 1 => fun s =>
-    if s.blocked then ((), s) else
+  | fuel + 1 => do
+    let s ← getS
+    if s.blocked then pure () else
     match s.ready with
-    | [] => ((), s)
-    | r :: _ =>
-      let (_, s1) := dequeue s
-      let (_, s2) := runReady1 (exec 100000) r s1
-      settle fuel s2
+    | [] => pure ()
+    | r :: _ => do
+      settleStep r
+      settle fuel
 
 end Circus.Core
